@@ -1,4 +1,5 @@
 """C12 — OAuth 1.0 provider: credential exchange order, single use and replay defence (histories)."""
+import json
 import re
 from urllib.parse import urlparse, parse_qsl
 
@@ -224,10 +225,122 @@ def cases(rng, tier):
         acc = dict({"op": "access", "client": "ca", "token": "tok4"}, **S("ca", "sec5", "a1"))
         ops += [acc, dict(acc), dict(acc, nonce="a2", signed_with=[SECRETS["ca"], "wrong"]), dict(acc, nonce="a3", client="cb", signed_with=[SECRETS["cb"], "sec5"])]
         out.append({"cfg": World1(["HMAC-SHA1"]).cfg, "ops": ops})
+    return out + fw_cases()
+
+
+ALL_METHODS = ["HMAC-SHA1", "RSA-SHA1", "PLAINTEXT"]
+
+
+def fw_cases():
+    """the Flask / Django integrations read the accepted signature methods from the framework configuration: exactly the configured ones are accepted"""
+    out = []
+    subsets = [None, ["HMAC-SHA1"], ["RSA-SHA1"], ["PLAINTEXT"], ["HMAC-SHA1", "PLAINTEXT"], ["RSA-SHA1", "PLAINTEXT"], ["RSA-SHA1", "HMAC-SHA1"], list(ALL_METHODS)]
+    for fw in ("flask", "django"):
+        for conf in subsets:
+            for ep in ("initiate", "resource"):
+                for m in ALL_METHODS:
+                    out.append({"fw": fw, "configured": conf, "ep": ep, "method": m})
     return out
 
 
+_FW = {}
+
+
+def _fw_sign(c, url, token=None, token_secret=None):
+    import joseref as R
+    _FW["n"] = _FW.get("n", 0) + 1
+    nonce = f"fw-{_FW['n']}"
+    ca_mod.generate_nonce = lambda: nonce
+    ca_mod.generate_timestamp = lambda: str(int(CLOCK.now))
+    auth = ClientAuth("ca", client_secret=SECRETS["ca"], token=token, token_secret=token_secret, redirect_uri="oob" if token is None else None,
+                      signature_method=c["method"], rsa_key=R.pem_private(R.keys()["rsa1"]) if c["method"] == "RSA-SHA1" else None)
+    _, headers, _ = auth.prepare("POST", url, {}, "")
+    return headers["Authorization"]
+
+
+def fw_impl(c):
+    import joseref as R
+    CLOCK.now = NOW0
+    client = mem1.Client1("ca", SECRETS["ca"], "https://a/cb", R.pem_public(R.keys()["rsa1"]))
+    tok = mem1.TokenCred("tok-fw", "sec-fw", "ca", 1)
+    url = f"https://sp.example/{c['ep']}"
+    hdr = _fw_sign(c, url) if c["ep"] == "initiate" else _fw_sign(c, url, "tok-fw", "sec-fw")
+    from urllib.parse import parse_qsl
+    try:
+        if c["fw"] == "flask":
+            from flask import Flask, jsonify
+            from authlib.integrations.flask_oauth1 import AuthorizationServer, ResourceProtector
+            from authlib.integrations.flask_oauth1.cache import register_nonce_hooks, register_temporary_credential_hooks, create_exists_nonce_func
+
+            class Cache:
+                def __init__(self): self.d = {}
+                def get(self, k): return self.d.get(k)
+                def set(self, k, v, timeout=None): self.d[k] = v
+                def delete(self, k): self.d.pop(k, None)
+                def has(self, k): return k in self.d
+            cache = Cache()
+            app = Flask("c12-fw")
+            app.config["PROPAGATE_EXCEPTIONS"] = True
+            if c["configured"] is not None:
+                app.config["OAUTH1_SUPPORTED_SIGNATURE_METHODS"] = list(c["configured"])
+            server = AuthorizationServer(app, query_client=lambda cid: client if cid == "ca" else None)
+            register_nonce_hooks(server, cache)
+            register_temporary_credential_hooks(server, cache)
+            require_oauth = ResourceProtector(app, query_client=lambda cid: client if cid == "ca" else None,
+                                              query_token=lambda cid, t: tok if (cid, t) == ("ca", "tok-fw") else None, exists_nonce=create_exists_nonce_func(cache))
+            app.add_url_rule("/initiate", "initiate", lambda: server.create_temporary_credentials_response(), methods=["POST"])
+            app.add_url_rule("/resource", "resource", require_oauth()(lambda: jsonify(ok=True)), methods=["POST"])
+            resp = app.test_client().open("/" + c["ep"], method="POST", headers={"Authorization": hdr}, base_url="https://sp.example")
+            status, text = resp.status_code, resp.get_data(as_text=True)
+        else:
+            from django.conf import settings
+            if not settings.configured:
+                settings.configure(DEBUG=False, SECRET_KEY="x", ALLOWED_HOSTS=["*"])
+            import django
+            django.setup()
+            from django.core.cache import cache as dcache
+            from django.http import JsonResponse
+            from django.test import RequestFactory
+            from authlib.integrations.django_oauth1 import CacheAuthorizationServer, ResourceProtector
+            dcache.clear()
+            settings.AUTHLIB_OAUTH1_PROVIDER = {} if c["configured"] is None else {"signature_methods": list(c["configured"])}
+
+            def model(find):
+                class DoesNotExist(Exception):
+                    pass
+
+                class Objects:
+                    @staticmethod
+                    def get(**kw):
+                        r = find(kw)
+                        if r is None:
+                            raise DoesNotExist()
+                        return r
+                return type("M", (), {"DoesNotExist": DoesNotExist, "objects": Objects})
+            CM = model(lambda kw: client if kw.get("client_id") == "ca" else None)
+            TM = model(lambda kw: tok if (kw.get("client_id"), kw.get("oauth_token")) == ("ca", "tok-fw") else None)
+            try:
+                req = RequestFactory().post("/" + c["ep"], secure=True, HTTP_HOST="sp.example", HTTP_AUTHORIZATION=hdr)
+                if c["ep"] == "initiate":
+                    resp = CacheAuthorizationServer(CM, TM).create_temporary_credentials_response(req)
+                else:
+                    resp = ResourceProtector(CM, TM)()(lambda request: JsonResponse({"ok": True}))(req)
+            finally:
+                del settings.AUTHLIB_OAUTH1_PROVIDER
+            status, text = resp.status_code, resp.content.decode()
+    except Exception as e:
+        return {"raised": f"{type(e).__name__}: {str(e)[:100]}"}
+    body = {}
+    try:
+        body = json.loads(text)
+    except Exception:
+        body = dict(parse_qsl(text))
+    return {"status": status, "error": body.get("error"), "issued": "oauth_token" in body}
+
+
 def impl(c):
+    if "fw" in c:
+        return fw_impl(c)
     w = World1(c["cfg"]["methods"])
     outs = []
     for op in c["ops"]:
@@ -239,6 +352,8 @@ def impl(c):
 
 
 def model_line(c):
+    if "fw" in c:
+        return None
     return {"cfg": c["cfg"], "ops": c["ops"]}
 
 
@@ -250,6 +365,17 @@ def oracle(c, out):
     v = []
     def bad(what, **sig):
         v.append((what, sig))
+    if "fw" in c:
+        conf = c["configured"] or ["HMAC-SHA1"]
+        where = f"{c['fw']} {'authorization server' if c['ep'] == 'initiate' else 'resource protector'} configured with signature methods {c['configured']}"
+        if "raised" in out:
+            bad(f"{where}: request raised {out['raised']}", kind="crash", op=c["ep"], exc=out["raised"].split(":")[0])
+        elif c["method"] in conf and out["status"] != 200:
+            bad(f"{where}: a correctly {c['method']}-signed request is refused ({out['status']} {out['error']})", kind="configured-method-refused", fw=c["fw"])
+        elif c["method"] not in conf and (out["status"] == 200 or out["error"] != "unsupported_signature_method"):
+            bad(f"{where}: a {c['method']}-signed request is answered {out['status']} {out['error']} instead of unsupported_signature_method",
+                kind="unconfigured-method-accepted", fw=c["fw"])
+        return v
     now = c["cfg"]["now"]
     methods = c["cfg"]["methods"]
     temps, creds, accepted_keys, exchanged = {}, {}, set(), set()
@@ -303,10 +429,14 @@ def oracle(c, out):
 
 
 def classify(c, out):
+    if "fw" in c:
+        return f"fwconfig/{c['fw']}/{c['ep']}/" + ("accepted" if out.get("status") == 200 else str(out.get("error") or out.get("raised")))
     return "history/" + str(len(c["ops"]))
 
 
 def nontrivial(c, out):
+    if "fw" in c:
+        return [c["fw"], c["configured"], c["ep"], c["method"]]
     return c["ops"]
 
 
